@@ -21,6 +21,8 @@ type VClock struct {
 	timers []*vtimer
 	// log of NewTimer / Reset durations per timer, for the window-growth monitor
 	Log []TimerCall
+	// gate: one-shot schedule point inside a clock call (clockgate.go)
+	gate *clockGate
 }
 
 type TimerCall struct {
@@ -60,6 +62,7 @@ func (c *VClock) NowNs() int64 {
 func (c *VClock) Since(t time.Time) time.Duration { return c.Now().Sub(t) }
 
 func (c *VClock) NewTimer(d time.Duration) clock.Timer {
+	c.atGate("new")
 	c.mu.Lock()
 	defer c.mu.Unlock()
 	t := &vtimer{c: c, idx: len(c.timers), ch: make(chan time.Time, 1)}
@@ -105,6 +108,7 @@ func (t *vtimer) release() {
 func (t *vtimer) C() <-chan time.Time { return t.ch }
 
 func (t *vtimer) Stop() bool {
+	t.c.atGate("stop")
 	t.c.mu.Lock()
 	defer t.c.mu.Unlock()
 	was := t.armed
@@ -115,6 +119,7 @@ func (t *vtimer) Stop() bool {
 }
 
 func (t *vtimer) Reset(d time.Duration) bool {
+	t.c.atGate("reset")
 	t.c.mu.Lock()
 	defer t.c.mu.Unlock()
 	was := t.armed
